@@ -133,9 +133,7 @@ func VerifC09Merge() {
 	verif.Show("want", want)
 	verif.Assume(known)
 	if sameName && !mReq && sReq {
-		verif.Expect("KF-C09-optional-method-header-does-not-replace-required-service-header", passed == want)
-		verif.Reach("C09/kf-override")
-		return
+		verif.Reach("C09/override-relaxes") // region of the merge defect repaired in c6a8471
 	}
 	verif.Assert("C09/merge/dispatch-iff-effective-headers-valid", passed == want)
 	if !passed {
